@@ -80,3 +80,84 @@ void h_search(void)
   }
 }
 #endif
+
+/* ===================== serialize ===================== */
+void WebSocketFrame_serialize_contract(const WebSocketFrameIn *self, bool applyMask, iora_ovec *iora_ret)
+__CPROVER_requires(IORA_TRUE && __CPROVER_is_fresh(self, sizeof(*self)) && self->payload.n <= ((size_t)1 << 50)
+                   && __CPROVER_is_fresh(self->payload.p, self->payload.n) && __CPROVER_is_fresh(iora_ret, sizeof(*iora_ret)))
+__CPROVER_assigns(*iora_ret)
+/* SZ exactly header + payload bytes */
+__CPROVER_ensures(iora_ret->n == S_HLEN + S_N)
+/* SB every output byte (witness index GK) is the RFC 6455 wire byte */
+__CPROVER_ensures(GK < iora_ret->n ==> iora_ret->gk == SER_BYTE(GK))
+;
+void h_serialize(void)
+{
+  const WebSocketFrameIn *f; bool m; iora_ovec *o;
+  WebSocketFrame_serialize(f, m, o);
+  IORA_CANARY("h_serialize: returns");
+}
+
+/* ===================== round-trip lemma over the two contracts' spec functions (loop-free, full domain) =====================
+ * For an arbitrary frame f (any opcode byte without RSV bits... opcode < 16, any length < 2^50, masked or not): the bytes SER_BYTE(0..hlen)
+ * fed to the parse spec (B0, B1, HLEN, PLEN, KEYAT, COMPLETE, CTL_BAD) give back f's fields, consume exactly the serialised size, and the
+ * payload clause of parse (E3p) composed with the payload clause of serialize (SB) is the identity on every payload byte. */
+void h_roundtrip_lemma(void)
+{
+  WebSocketFrameIn fr; const WebSocketFrameIn *self = &fr;
+  bool applyMask = nondet_bool();
+  uint8_t pb = nondet_u8();                 /* payload byte at the witness index */
+  size_t k = nondet_size_t();               /* witness payload index */
+  fr.fin = nondet_bool(); fr.opcode = nondet_u8(); fr.masked = applyMask;
+  fr.maskKey[0] = nondet_u8(); fr.maskKey[1] = nondet_u8(); fr.maskKey[2] = nondet_u8(); fr.maskKey[3] = nondet_u8();
+  fr.payload.n = nondet_size_t(); fr.payload.p = 0;
+  __CPROVER_assume(fr.opcode < 16 && fr.payload.n <= ((size_t)1 << 50) && k < fr.payload.n);
+  /* a control frame the library serialises is final and short (RFC 6455 5.5); others are unconstrained */
+  __CPROVER_assume(!(fr.opcode == 8 || fr.opcode == 9 || fr.opcode == 10) || (fr.fin && fr.payload.n <= 125));
+  uint8_t hdr[14];
+  for (unsigned q = 0; q < 14; q++) hdr[q] = q < S_HLEN ? ((q) == 0 ? S_B0 : (q) == 1 ? S_B1 : (q) < 2 + S_EXT ? S_EXTBYTE(q) : self->maskKey[(q) - 2 - S_EXT]) : 0;
+  iora_bv data = { hdr, S_HLEN + S_N };     /* only header bytes are read by the header spec macros */
+  __CPROVER_assert(RSV == 0 && data.n >= 2, "lemma: serialised frame has no RSV bits");
+  __CPROVER_assert(COMPLETE && !CTL_BAD, "lemma: parse contract E4 applies (frame returned)");
+  __CPROVER_assert(HLEN == S_HLEN && (size_t)PLEN == S_N, "lemma: parse consumes exactly the serialised bytes (E3: consumed == HLEN + PLEN == out.n)");
+  __CPROVER_assert(FIN == fr.fin && OPC == fr.opcode && MSK == applyMask, "lemma: fin/opcode/masked equal");
+  __CPROVER_assert(!applyMask || (KEYAT(0) == fr.maskKey[0] && KEYAT(1) == fr.maskKey[1] && KEYAT(2) == fr.maskKey[2] && KEYAT(3) == fr.maskKey[3]), "lemma: mask key equal");
+  /* payload: serialize SB gives wire byte w = pb ^ key[k%4]; parse E3p gives payload'[k] = w ^ KEYAT(k%4) */
+  uint8_t w = (uint8_t)(pb ^ (applyMask ? fr.maskKey[k % 4] : 0));
+  uint8_t back = (uint8_t)(w ^ (MSK ? KEYAT(k % 4) : 0));
+  __CPROVER_assert(back == pb, "lemma: payload byte round-trips");
+  IORA_CANARY("h_roundtrip_lemma: reachable");
+}
+
+/* ===================== isValidUtf8 ===================== */
+bool WebSocketFrame_isValidUtf8_contract(const WebSocketFrameIn *self)
+__CPROVER_requires(IORA_TRUE && __CPROVER_is_fresh(self, sizeof(*self)) && self->payload.n <= ((size_t)1 << 50)
+                   && __CPROVER_is_fresh(self->payload.p, self->payload.n))
+__CPROVER_assigns()
+__CPROVER_ensures(self->payload.n == 0 ==> __CPROVER_return_value)
+;
+void h_utf8(void) { const WebSocketFrameIn *f; bool r = WebSocketFrame_isValidUtf8(f); if (r) { IORA_CANARY("h_utf8: accepted"); } else { IORA_CANARY("h_utf8: rejected"); } }
+
+/* step contract (DESIGN 2.6): one iteration of the scan loop, for every state satisfying the loop invariant (i < n).
+ * Spec = RFC 3629 section 4 (Table 3-7 of Unicode): the well-formed byte sequences, written from the RFC. */
+#define U_CONT(b) ((b) >= 0x80 && (b) <= 0xBF)
+#define U_WF2(a, b) ((a) >= 0xC2 && (a) <= 0xDF && U_CONT(b))
+#define U_WF3(a, b, c) (((((a) == 0xE0) && (b) >= 0xA0 && (b) <= 0xBF) || ((a) >= 0xE1 && (a) <= 0xEC && U_CONT(b)) \
+                        || ((a) == 0xED && (b) >= 0x80 && (b) <= 0x9F) || ((a) >= 0xEE && (a) <= 0xEF && U_CONT(b))) && U_CONT(c))
+#define U_WF4(a, b, c, d) (((((a) == 0xF0) && (b) >= 0x90 && (b) <= 0xBF) || ((a) >= 0xF1 && (a) <= 0xF3 && U_CONT(b)) \
+                           || ((a) == 0xF4 && (b) >= 0x80 && (b) <= 0x8F)) && U_CONT(c) && U_CONT(d))
+void h_utf8_step(void)
+{
+  WebSocketFrameIn fr; size_t n = nondet_size_t(); __CPROVER_assume(n <= ((size_t)1 << 50));
+  uint8_t *p = malloc(n); __CPROVER_assume(p != 0);
+  fr.payload.p = p; fr.payload.n = n;
+  size_t i = nondet_size_t(); __CPROVER_assume(i < n);          /* loop invariant (i <= n) and loop condition (i < n) */
+  size_t i0 = i, avail = n - i0;
+  uint8_t a = p[i0], b = avail > 1 ? p[i0 + 1] : 0, c = avail > 2 ? p[i0 + 2] : 0, d = avail > 3 ? p[i0 + 3] : 0;
+  unsigned spec = a <= 0x7F ? 1 : (avail >= 2 && U_WF2(a, b)) ? 2 : (avail >= 3 && U_WF3(a, b, c)) ? 3 : (avail >= 4 && U_WF4(a, b, c, d)) ? 4 : 0;
+  bool cont = utf8_step(&fr, &i);
+  __CPROVER_assert(cont == (spec != 0), "U1: the iteration continues iff a well-formed UTF-8 sequence (RFC 3629) starts at i");
+  __CPROVER_assert(!cont || i == i0 + spec, "U2: a continuing iteration consumes exactly that sequence");
+  __CPROVER_assert(i <= n, "U3: i stays within the payload");
+  if (cont) { IORA_CANARY("h_utf8_step: continues"); } else { IORA_CANARY("h_utf8_step: rejects"); }
+}
